@@ -29,7 +29,7 @@ ASSUMPTIONS = ['mockturtle and python-sat are absent: cut families come from vt/
                'self-checking z3 stand-in', 'vt.refsem; vt.wf']
 SUPPORTED = ['NOT', 'AND', 'OR', 'XOR', 'NAND', 'NOR', 'NXOR', 'GT', 'LT', 'GEQ', 'LEQ']
 REQUIRED = {'mon:minimize_subcircuits.checked': 60, 'synth:returned': 10, 'shrunk': 10, 'policy:faithful': 10, 'policy:shuffled': 10, 'policy:pruned': 10,
-            'policy:inputs_omitted': 5, 'validation_enabled': 10, 'no_equivalent_gates': 20, 'shim_selftest_ok': 1}
+            'policy:inputs_omitted': 5, 'validation_enabled': 10, 'no_equivalent_gates': 20, 'shim_selftest_ok': 1, 'wide_inputs_cases': 2}
 
 CUR = {'ctx': None, 'case': None, 'trace': None}
 
@@ -41,6 +41,10 @@ def shards(tier, seed):
     for stream in range(4):
         for hs in (0, 1, 2, 3):
             out.append({'kind': 'random', 'count': per, 'budget_s': budget, 'stream': stream, 'hashseed': str(hs + 10 * stream)})
+    # circuits with more primary inputs than brute-force test sizes (the pass simulates all 2^n assignments itself)
+    wide = [[17], [18]] if tier == 'quick' else [[13, 14, 15, 16, 17] * 3, [17, 18] * 4, [19, 17, 18], [16, 17, 18, 15] * 3]
+    for k, ns in enumerate(wide):
+        out.append({'kind': 'wide', 'n_in': ns, 'count': len(ns), 'budget_s': budget, 'stream': 100 + k, 'hashseed': str(k)})
     return out
 
 
@@ -182,7 +186,7 @@ def post_min(st, args, kwargs, result):
         disc = 'function_changed'
         if br.get('all_trivial') and br.get('negated_trivial_output'):
             disc = 'function_changed/all_trivial_branch'
-        V(disc, 'truth table changed: %r -> %r' % (ta, tr_))
+        V(disc, 'truth table changed: %s -> %s' % (refsem.fmt_tt(ta), refsem.fmt_tt(tr_)))
         return
     na, nr = nontrivial_count(a), nontrivial_count(r)
     if nr > na:
@@ -325,6 +329,40 @@ def gen_case(rng, hashseed):
     return case
 
 
+def gen_wide_case(rng, hashseed, n_in):
+    """A core of the usual kind plus a chain over additional primary inputs (own output, or folded into a core output),
+    so that the circuit has n_in primary inputs in total."""
+    shape, core = gen_net(rng)
+    while core is None:
+        shape, core = gen_net(rng)
+    g = dict(core.gates)
+    ins = list(core.inputs)
+    outs = list(core.outputs)
+    extra = ['w%d' % i for i in range(max(0, n_in - len(ins)))]
+    items = [(l, v) for l, v in g.items() if v[0] == 'INPUT'] + [(l, ('INPUT', ())) for l in extra] + \
+            [(l, v) for l, v in g.items() if v[0] != 'INPUT']
+    g = dict(items)
+    prev = None
+    for i, l in enumerate(extra):
+        if prev is None:
+            prev = l
+            continue
+        g['ch%d' % i] = (rng.choice(['AND', 'OR', 'XOR', 'AND']), (prev, l))
+        prev = 'ch%d' % i
+    if prev is not None:
+        if outs and rng.random() < 0.5:
+            g['fold'] = (rng.choice(['AND', 'XOR', 'OR']), (outs[-1], prev))
+            outs[-1] = 'fold'
+        else:
+            outs.append(prev)
+    net = refsem.Net(ins + extra, outs, g)
+    return {'kind': 'random', 'shape': 'wide_inputs', 'rseed': rng.getrandbits(32), 'hashseed': hashseed,
+            'basis': rng.choice(['AIG', 'XAIG', 'FULL']),
+            'params': {'max_subcircuit_size': rng.choice([3, 4, 5]), 'cut_size': rng.choice([2, 3, 4]), 'cut_limit': 8,
+                       'solver_time_limit_sec': 0, 'enable_validation': False},
+            'policy': 'faithful', 'dedupe_first': False, 'net': netgen.describe(net)}
+
+
 def build_case_circuit(case, rng):
     from cirbo.core.circuit import Circuit
     if case['shape'] == 'adder':
@@ -389,7 +427,11 @@ def run_shard(spec, ctx):
         if ctx.out_of_time():
             ctx.count('stopped_on_budget')
             break
-        check_case(gen_case(rng, spec['hashseed']), ctx)
+        if spec.get('kind') == 'wide':
+            ctx.count('wide_inputs_cases')
+            check_case(gen_wide_case(rng, spec['hashseed'], spec['n_in'][i]), ctx)
+        else:
+            check_case(gen_case(rng, spec['hashseed']), ctx)
 
 
 def replay(case, ctx):
